@@ -242,6 +242,16 @@ def run(chk: common.Check, tier: str):
             texts.append(t)
             if len(texts) >= want + len(SEEDS):
                 break
+    # a second family over the less common token kinds (SOFT_KEYWORD, STRING, OP) and both keyword styles
+    import dataclasses
+    kn2 = dataclasses.replace(kn, terminals=("NAME", "SOFT_KEYWORD", "STRING", "OP", "NUMBER", '"soft"', "'kw'", "'+'", "NEWLINE"))
+    want2 = len(texts) + (15 if tier == "quick" else 200)
+    for t in gramgen.gen_grammars(r, kn2, (15 if tier == "quick" else 200) * 12):
+        tries += 1
+        if well_formed(t):
+            texts.append(t)
+            if len(texts) >= want2:
+                break
     chk.bump("random grammars tried", tries)
     nin, ln = (40, 3) if tier == "quick" else (250, 4)
     inputs_for = lambda t: A.inputs_upto(A.alphabet(t), ln, nin) + (EXTRA_INPUTS if t in SEEDS else [])
